@@ -191,6 +191,10 @@ def restart_keys(ctx, cls, ga, depth=0):
             for kk, vv in zip(st.value.args[0].keys, st.value.args[0].values):
                 if isinstance(kk, ast.Constant):
                     keys[kk.value] = vv
+        # kwargs['key'] = value
+        if isinstance(st, ast.Assign) and len(st.targets) == 1 and isinstance(st.targets[0], ast.Subscript) and isinstance(st.targets[0].value, ast.Name) \
+                and isinstance(st.targets[0].slice, ast.Constant) and isinstance(st.targets[0].slice.value, str):
+            keys[st.targets[0].slice.value] = st.value
     for c in calls_in(ga.node):
         r = ctx.prog.resolve_call(c, ga, cls)
         if r and r[0] == 'func' and r[1].name == '_get_restart_args' and r[1] is not ga and depth < 3:
